@@ -55,7 +55,7 @@ def run(ctx):
         if (g3 != gs).any() or (p3 != ps).any():
             ctx.fail('state_to_map', 'state_to_map(map_to_state(x)) != x', dict(map=rows))
     # named constructors
-    for n in range(1, ctx.budget(7, 10)):
+    for n in range(1, ctx.size(7, 10)):
         Zs = [(tuple('Z' if i == k else 'I' for i in range(n)), 0) for k in range(n)]
         cases = [('zero', pc.zero_state(n), Zs, 0), ('one', pc.one_state(n), [O.oneg(z) for z in Zs], 0),
                  ('mixed', pc.maximally_mixed_state(n), [], n)]
